@@ -70,10 +70,22 @@ func gather(reg *prometheus.Registry, name string) []series {
 	return out
 }
 
+// alternate: odd-numbered runs of a sequence use another scenario name
+var alternate bool
+
+// useGlobal: run against the process-wide metrics instance and the default registry
+var useGlobal bool
+
 func checkRuns(r *hlib.Rec, labels map[string]string, scenario string, runs []mix, rep int, enabled bool) {
+	alternate = rep%2 == 1
 	r.Eval()
 	reg := prometheus.NewRegistry()
 	m := metrics.NewInstance(reg, enabled, labels)
+	if useGlobal {
+		// the process-wide instance (what f1.New sets up, and what T.Time records into)
+		reg = prometheus.DefaultRegisterer.(*prometheus.Registry)
+		m = metrics.Instance()
+	}
 	var lk []string
 	for k := range labels {
 		lk = append(lk, k)
@@ -84,9 +96,18 @@ func checkRuns(r *hlib.Rec, labels map[string]string, scenario string, runs []mi
 		rn = append(rn, x.name)
 	}
 	input := fmt.Sprintf("labels=%v scenario=%s runs=%v iteration-metrics-enabled=%v", lk, scenario, rn, enabled)
+	if useGlobal {
+		input += " process-wide-metrics-instance"
+	}
 	r.SampleCase(input)
+	base := scenario
 	for ri, mx := range runs {
 		passes, failsN := uint64(0), uint64(0)
+		// consecutive runs on one instance are not always runs of the same scenario
+		scenario := base
+		if alternate && ri%2 == 1 {
+			scenario = base + "-other"
+		}
 		rs := &hlib.RunSpec{Mode: "constant", Quiet: true, Metrics: m, Scenario: scenario, CompletionTimeout: time.Second,
 			Flags: map[string]string{"rate": "1/100ms", "distribution": "none"},
 			Opts:  options.RunOptions{MaxDuration: 10 * time.Second, Concurrency: 1, MaxIterations: mx.iters, IgnoreDropped: true}}
@@ -106,6 +127,9 @@ func checkRuns(r *hlib.Rec, labels map[string]string, scenario string, runs []mi
 				if mx.drops {
 					vtime.Sleep(150 * time.Millisecond)
 				}
+				// stages timed by the body (also under an empty name) are not iterations
+				t.Time("", func() {})
+				t.Time("step", func() {})
 				if mx.fails[id] {
 					failsN++
 					t.Fail()
@@ -228,6 +252,11 @@ func suite(reps int, maxRuns int) hlib.Suite {
 						checkRuns(r, l2, scen, sq, rep, true)
 						if rep == 0 && len(labels) <= 1 {
 							checkRuns(r, l2, scen, sq, rep, false)
+						}
+						if rep <= 1 && len(labels) == 0 {
+							useGlobal = true
+							checkRuns(r, l2, scen, sq, rep, true)
+							useGlobal = false
 						}
 					}
 				}
